@@ -55,6 +55,9 @@ struct Plan {
     upload: usize,
     /// caller: think time (ms) before read call i
     think: Vec<(usize, u64)>,
+    /// caller: pause (ms) between the read that reported the end of the body and the reads after it
+    /// (long enough to cross the overall deadline: the response still completed before it)
+    think_after_end_ms: Option<u64>,
     drop_after_calls: Option<usize>,
     rereads: usize,
     scripts: Vec<Script>,
@@ -109,6 +112,7 @@ fn gen(g: &mut G, thorough: bool) -> Plan {
         hop_delay_ms: 0,
         upload: 0,
         think: Vec::new(),
+        think_after_end_ms: None,
         drop_after_calls: None,
         rereads: 0,
         scripts: Vec::new(),
@@ -133,6 +137,12 @@ fn gen(g: &mut G, thorough: bool) -> Plan {
             }
             if g.chance(1, 4) {
                 p.drop_after_calls = Some(g.usize_below(6));
+            }
+            if g.chance(1, 3) {
+                // a slow caller: holds the finished response past the deadline, then reads again
+                p.think_after_end_ms = Some(p.t_ms.unwrap() + g.below(5_000));
+                p.rereads = p.rereads.max(1);
+                g.probe("caller-reads-again-after-the-deadline");
             }
             p.phase = "complete";
         }
@@ -326,6 +336,9 @@ fn caller(p: &Plan) -> Obs {
             ended = true;
             if p.rereads == 0 {
                 break;
+            }
+            if let Some(ms) = p.think_after_end_ms {
+                attosim::sleep_ns(ms * NS_PER_MS);
             }
         }
         if i > 200_000 {
